@@ -34,6 +34,16 @@ RESULTS = {
  "C14-2": (["C14"], [], False, ""),
  "C15-1": (["C15"], [], True, "needed a second HSL operation (or accessor) on a lighten()/darken() result: the rebuild law on every function result now also requires lightness/saturation in [0%,100%] and lighten/darken by 0% to be identities"),
  "C15-2": (["C15"], ["C09"], False, ""),
+ "C16-1": (["C16"], ["C05"], False, ""),
+ "C16-2": (["C16"], [], False, ""),
+ "C17-1": (["C17"], [], False, ""),
+ "C17-2": (["C17"], [], False, ""),
+ "C18-1": (["C18"], ["C03"], True, "needed a nested @if without @else as the last child of an @if that has an @else, in the indented syntax: SassScript programs are now printed through both printers in C18 (`scss-vs-sass-program`, CSS and logger messages compared); before that only rule trees were"),
+ "C18-2": (["C18"], [], True, "needed a line break directly before a negative number inside a space-separated value: the `value-gaps` rewrite (whitespace inside declaration values, always rewritten before a sign) and lists with negative non-first items were added"),
+ "C19-1": (["C01"], ["C19"], False, "the change makes the library panic (codemap assertion) where an error should be returned; C19 counts abnormal outcomes as C01's subject, and C01 reports it (class G3: non-ASCII text interpolated into selectors / queries)"),
+ "C19-2": (["C19", "C18"], [], True, "needed CRLF line endings and a directive deep in the file: logging programs are now also written with CRLF (expected lines unchanged)"),
+ "C20-1": (["C20"], [], True, "needed the same module in two load paths given in non-sorted order: `load-path-precedence` projects were added"),
+ "C20-2": (["C20"], [], True, "needed an output file that exists before the run and is longer than the new CSS: the output file is now pre-filled with empty / short / long stale content in three of four runs"),
 }
 conf = {}
 for l in open('/tmp/confirm/results.txt'):
